@@ -19,7 +19,6 @@ import (
 	"time"
 
 	"github.com/pentops/j5/internal/verifh/vh"
-	"github.com/shopspring/decimal"
 	"google.golang.org/protobuf/proto"
 	"google.golang.org/protobuf/reflect/protoreflect"
 	"google.golang.org/protobuf/types/known/timestamppb"
@@ -114,7 +113,7 @@ func (o *oraSet) addNum(text string) {
 		}
 		o.f[text] = fmt.Sprintf("(f %s %016x %s)", vh.Hex([]byte(text)), math.Float64bits(v), f32)
 	}
-	if d, err := decimal.NewFromString(text); err == nil {
+	if d, err := safeDecimal(text); err == nil {
 		o.d[text] = fmt.Sprintf("(d %s %s)", vh.Hex([]byte(text)), vh.Hex([]byte(d.String())))
 	}
 }
@@ -308,7 +307,7 @@ func (im *impl) execEnc(h *vh.H, op string, nodes []*node) string {
 	}
 	canon := out
 	if !root.broken {
-		canon = canonEncBytes(ts, root, out)
+		canon = canonEncBytes(ts, root, out, m)
 	}
 	if repr && !root.broken {
 		// C08 conformance
@@ -423,7 +422,19 @@ func (im *impl) execDec(h *vh.H, op string, nodes []*node) string {
 		return "panic"
 	}
 	if res.dur > timeBound(len(doc)) {
-		h.Fail("c06-slow", op, fmt.Sprintf("%v for %d bytes", res.dur, len(doc)))
+		// a loaded machine can stall any call: only a call that is slow three times in a row counts
+		best := res.dur
+		for k := 0; k < 2 && best > timeBound(len(doc)); k++ {
+			m2 := ts.newMessage(md)
+			if r2 := call(op, func() error { return c.JSONToProto(doc, m2) }); r2.dur < best {
+				best = r2.dur
+			}
+		}
+		if best > timeBound(len(doc)) {
+			h.Fail("c06-slow", op, fmt.Sprintf("%v (best of 3) for %d bytes", best, len(doc)))
+		} else {
+			h.Count("c06.slow-once-then-fast")
+		}
 	}
 	root := ts.rootOf(md)
 	if res.err != nil {
@@ -604,7 +615,18 @@ func (im *impl) execQuery(h *vh.H, op string, nodes []*node) string {
 		return "panic"
 	}
 	if res.dur > timeBound(total) {
-		h.Fail("c06-slow", op, fmt.Sprintf("%v for %d bytes", res.dur, total))
+		best := res.dur
+		for k := 0; k < 2 && best > timeBound(total); k++ {
+			m2 := ts.newMessage(md)
+			if r2 := call(op, func() error { return c.QueryToProto(vals, m2) }); r2.dur < best {
+				best = r2.dur
+			}
+		}
+		if best > timeBound(total) {
+			h.Fail("c06-slow", op, fmt.Sprintf("%v (best of 3) for %d bytes", best, total))
+		} else {
+			h.Count("c06.slow-once-then-fast")
+		}
 	}
 	// url.Values is a map: check that the outcome does not depend on the iteration order
 	if len(vals) > 1 {
